@@ -110,6 +110,8 @@ def run_case(ck, case, reqs, pending):
     ck.dist["worst_error_over_tolerance"] = max(ck.dist.get("worst_error_over_tolerance", 0.0), (err / tol) if not ph.d2 else 0.0)
     if err > tol:
         sig = SIG_D2 if ph.d2 else None
+        if sig is None and physical.unconverged_fits(ph.frame, ph.used, fit):
+            sig = physical.SIG_FIT
         worst = int(np.argmax(np.abs(x - tau)))
         ck.fail("every inferred interface reports true tension / mean true tension",
                 f"max error {err:.3g} (tolerance {tol:.3g}; sigma_min {smin:.3g}; {len(ph.d2)} mirrored coefficients); interface "
